@@ -59,6 +59,50 @@ theorem frame_id_conforming (pre digits : String) (hpre : ∀ c ∈ pre.toList, 
   rw [this]
   rfl
 
+/-- **the frame number is the last digit group before `_keypoints.json`**, whatever precedes it: other numbers, other digit groups, even earlier
+    `…_keypoints.json` fragments — provided the character in front of the group is not a digit (else the group would be longer) and no complete
+    `_keypoints?json` literal ends exactly there (`re.findall` would have consumed that character; see the example below). -/
+theorem frame_id_last_group (pre digits : String) (hlast : ∀ x, pre.toList.getLast? = some x → isDigit x = false)
+    (hno : NoEnd pre.toList)
+    (hd : digits.toList ≠ []) (hall : ∀ c ∈ digits.toList, isDigit c = true) :
+    frameId (pre ++ digits ++ "_keypoints.json") = some (digitsToNat digits.toList) := by
+  unfold frameId
+  have hl : (pre ++ digits ++ "_keypoints.json").toList = pre.toList ++ digits.toList ++ "_keypoints.json".toList := by simp
+  have hk : "_keypoints.json".toList = kTail := rfl
+  rw [hl, hk, List.append_assoc]
+  cases hdl : digits.toList with
+  | nil => exact absurd hdl hd
+  | cons d0 ds =>
+    rw [hdl] at hall
+    have := findAll_general ds d0 (hall d0 (by simp)) (fun x hx => hall x (by simp [hx])) pre.toList.length pre.toList (Nat.le_refl _)
+      ((pre ++ digits ++ "_keypoints.json").length + 1) true
+      (by simp only [String.length_append, String.length_toList]; omega) (fun _ => rfl) hlast hno
+    simp only [List.cons_append] at this ⊢
+    rw [this]
+    rfl
+
+/-- the documented naming scheme `[ARBITRARY CHARACTERS]_[FRAME_ID]_keypoints.json`: no condition on the arbitrary characters at all -/
+theorem frame_id_documented (pre digits : String) (hd : digits.toList ≠ []) (hall : ∀ c ∈ digits.toList, isDigit c = true) :
+    frameId (pre ++ "_" ++ digits ++ "_keypoints.json") = some (digitsToNat digits.toList) := by
+  apply frame_id_last_group (pre ++ "_") digits _ _ hd hall
+  · intro x hx
+    have : (pre ++ "_").toList = pre.toList ++ ['_'] := by simp
+    rw [this, List.getLast?_append] at hx
+    simp at hx
+    subst hx; decide
+  · intro c hc
+    have : (pre ++ "_").toList = pre.toList ++ ['_'] := by simp
+    rw [this] at hc
+    obtain ⟨t, ht⟩ := hc
+    have := congrArg List.getLast? ht
+    simp only [List.getLast?_append] at this
+    revert this; simp [kJson]
+
+/-- the excluded case is real: the earlier match consumes the character in front of the last group, and `re.findall` does not find it -/
+example : frameId "x1_keypoints.json2_keypoints.json" = some 1 := by decide +kernel
+example : frameId "cam2-000017_keypoints.json" = some 17 := by decide +kernel
+example : frameId "a1_keypoints.json_23_7_keypoints.json" = some 7 := by decide +kernel
+
 example : frameId "video_000000000012_keypoints.json" = some 12 := by decide +kernel
 /-- two components of 1 and 2 keypoints; frame 2 has one person; frames 0, 1 are absent -/
 example : (loadOpenpose natSc (· == 0) [1, 2] [⟨2, [[[11, 12, 1], [21, 22, 0, 31, 32, 7]]]⟩] 24 none).map (fun b => (b.conf, b.data.getD 2 [], b.missing.getD 2 [])) =
